@@ -154,6 +154,25 @@ def wrapper_delegates(F, wpath_prefix, inner_field, method):
     return True, inner_impl
 
 
+def callbacks_rule(ck, F, rule):
+    """create_randomized_constraints invokes every deferred callback exactly once, in order, on both roles"""
+    for role, prefix in (("prover", H.P_PRV), ("verifier", H.P_VER)):
+        I = H.new_interp(F)
+        st = state(role, None)
+        ncb = isym("ncb")
+        st.fields["deferred_constraints"] = Vec.atom("cb", ncb, mk=lambda e_: Opaque("callback", id=e_))
+        try:
+            I.call_fn(prefix + "create_randomized_constraints", [st])
+        except Unanalysable as u:
+            ck.fail(rule, f"all-callbacks:{role}", f"unanalysable: {u.msg}", u.where, kind="unanalysable")
+            continue
+        loops = [l for l in I.loop_log if l["fn"].endswith("create_randomized_constraints")]
+        users = [(it, ctx) for it, ctx in __import__("rules.analyses", fromlist=["flat_trace"]).flat_trace(I.trace.items) if it[0] == "user"]
+        in_star = [u for u in users if any(c_[0] == "star" for c_ in u[1])]
+        ok = len(loops) == 1 and eq(loops[0]["n"], ncb) and eq(loops[0]["off"], 0) and len(users) == 1 and len(in_star) == 1
+        ck.require(ok, rule, f"all-callbacks:{role}", f"every deferred randomized callback must be invoked (one loop over all {ncb} callbacks); loops {[(str(l['n']), str(l['off'])) for l in loops]}, callback invocations {len(users)} (inside a loop: {len(in_star)})", "src/r1cs/" + role + ".rs")
+
+
 def constrain_rules(ck, F, rule):
     """constrain(lc) appends exactly the given linear combination, unconditionally, on both roles"""
     for role in ("prover", "verifier"):
@@ -222,6 +241,7 @@ def body(ck, F, cfg):
             ck.require(okc, "R16.1", f"multiply-constraint:{role}:{nm}", f"{role}'s multiply must record the constraint {nm} - {var}(new gate) = 0 (the given terms followed by the new wire with coefficient -1); {why}")
     ck.sample({"transition": "allocate, pending=None", "summary": str(summary(F, "verifier", "allocate", None)["ret"])})
     constrain_rules(ck, F, "R16.1")
+    callbacks_rule(ck, F, "R16.4")
     # R16.3 half-open gate on the prover
     R = run_method(F, "prover", "allocate", None)
     sec = R["state"].fields["secrets"].fields
